@@ -135,6 +135,16 @@ class AbsFile(io.IOBase):
         self.log.append(("write", b))
         if self.fail_at is not None and k == self.fail_at:
             raise PyRaise(OSError(28, "No space left on device (injected)"))
+        short = getattr(self, "short_at", None)
+        if short is not None and k == short[0]:
+            # a RAW file object: this call takes only the first `keep` bytes and says so (the caller is expected to offer the rest again)
+            conc = b if isinstance(b, (bytes, bytearray)) else getattr(b, "concrete", None)
+            if not isinstance(conc, (bytes, bytearray)):
+                raise Unsupported("short write of abstract bytes")
+            keep = min(short[1], len(conc))
+            if keep:
+                self.segs.append((bytes(conc[:keep]), keep))
+            return keep
         if isinstance(b, str) and "b" in self.mode:
             raise PyRaise(TypeError("a bytes-like object is required, not 'str'"))
         if isinstance(b, (bytes, bytearray)) and "b" not in self.mode:
@@ -308,7 +318,7 @@ class AbsFile(io.IOBase):
         return len(data)
 
     def __getattr__(self, name):
-        if name.startswith("_") or name in ("name", "preset", "csv_rows", "avro", "outer", "errors", "newline", "codec_truncated", "short_reads"):
+        if name.startswith("_") or name in ("name", "preset", "csv_rows", "avro", "outer", "errors", "newline", "codec_truncated", "short_reads", "short_at"):
             raise AttributeError(name)
         raise Unsupported(f"file method {name!r} is outside the file model")
 
